@@ -1,6 +1,7 @@
 import ProductMD.Driver.Proto
 import ProductMD.Model.Validation
 import ProductMD.Model.Loads
+import ProductMD.Model.LoadsForest
 import ProductMD.Spec.Rules
 /-! driver ops of C06/C07: validate a part, evaluate the rule catalogue on a part, the dumps walk, the loads model -/
 namespace PM.Driver.OpsValidation
@@ -83,8 +84,8 @@ def loadsOf (fmt : String) (doc : PyVal) : Json :=
   | "extra_files" => loadOutcome false (Loads.extraFilesLoads doc)
   | "images" => loadOutcome false (Loads.imagesLoads doc)
   | "discinfo" => loadOutcome false (Loads.discLoads doc)
-  | "composeinfo" => loadOutcome true (Loads.ciFrontLoads doc)
-  | "treeinfo" => loadOutcome true (Loads.tiFrontLoads doc)
+  | "composeinfo" => loadOutcome false (Loads.ciLoads doc)
+  | "treeinfo" => loadOutcome false (Loads.tiLoads doc)
   | _ => jerr "bad-format"
 
 def ops : List (String × (Json → Json)) :=
